@@ -95,7 +95,7 @@ def explore(chk, docs, cap, maxlines, tree, timeout=3000):
     cfg = flow.cfg_text(constants={"MaxLines": maxlines}, overrides=loadgen.ZLOAD_OVERRIDES,
                         invariants=["ZTypeOK", "AcceptIffConforms", "TreeIsValueTree", "RejectIsConfigError", "Emit"],
                         properties=["FailureIsFinal"])
-    r, n = flow.run_g(chk, mod, cfg, replay_g, nontrivial=nontrivial_g, sample_every=40009, timeout=timeout)
+    r, n = flow.run_g(chk, mod, cfg, replay_g, nontrivial=nontrivial_g, sample_every=40009, timeout=timeout, workers=10)
     chk.note("schemas", len(docs))
     chk.note("vocabulary_sizes", [len(v) for v in vocabs])
     chk.note("max_lines", maxlines)
@@ -189,7 +189,7 @@ def deep(chk, docs, ntext, tree, maxdepth=4, timeout=3000, compare=None):
     for sid, rec in enumerate(sc.recs):
         vocab = schemas.vocabulary(rec, 40)
         for t in range(ntext):
-            base = textgen.Gen(rng, rec, maxdepth=maxdepth).text()
+            base = textgen.Gen(rng, rec, maxdepth=maxdepth, slash_names=True).text()
             cands = [base]
             if t % 3 == 0:
                 cands += stress_texts(rng, rec, base)
@@ -223,8 +223,8 @@ def deep(chk, docs, ntext, tree, maxdepth=4, timeout=3000, compare=None):
 
 def run(chk):
     quick = chk.tier == "quick"
-    docs = schemas.family(chk.seed, 12 if quick else 28)
-    chk.rule = ("for every schema of the family (12 hand-designed rule-interaction schemas + seeded random ones: keys, "
+    docs = schemas.family(chk.seed, 9 if quick else 28)
+    chk.rule = ("for every schema of the family (14 hand-designed rule-interaction schemas + seeded random ones: keys, "
                 "multikeys, '+' keys/multikeys with and without defaults and required, fixed/'*'/'+' sections and "
                 "multisections, abstract types, derived types, key types basic-key/identifier/ipaddr-or-hostname, "
                 "nesting <= 3) every text over the schema's vocabulary (declared keys in two cases, undeclared and "
